@@ -234,3 +234,49 @@ Proof.
     assert (E : (u <? deadline) = true) by (apply Z.ltb_lt; lia). rewrite E.
     destruct a; [discriminate|]. apply IH; assumption.
 Qed.
+
+(** * whatever arrives and whenever the call ends, every transmission is on the schedule *)
+Lemma sched_length n : forall s tau, length (sched n s tau) = n.
+Proof. induction n as [|n IH]; intros; cbn [sched length]; [reflexivity | rewrite IH; reflexivity]. Qed.
+
+(** for EVERY delivery stream (accepted or rejected datagrams, in any order) and every cancel / close
+    instant, the transmissions of a call are an initial segment of its schedule: none is early, late,
+    duplicated or added, whatever the reason the call ended *)
+Theorem transmissions_on_schedule : forall n s tau cancel close ds,
+  exists k, (k <= n)%nat /\ transmissions (run_call false n s tau cancel close ds) = sched k s tau.
+Proof.
+  induction n as [|n IH]; intros s tau cancel close ds; cbn [run_call].
+  - exists 0%nat. split; [lia | reflexivity].
+  - pose proof (try_bounded ds (s + tau) tau cancel close) as B.
+    destruct (try false (s + tau) tau cancel close ds) as [t|t rest|t o]; cbn [transmissions].
+    + exists 1%nat. split; [lia | reflexivity].
+    + subst t. destruct (IH (s + tau) (2 * tau) cancel close rest) as (k & Hk & E).
+      exists (S k). split; [lia|]. cbn [sched]. rewrite E. reflexivity.
+    + exists 1%nat. split; [lia | reflexivity].
+Qed.
+
+(** a call that ends with the no-response error without having been closed has used all its tries *)
+Theorem no_response_uses_all_tries : forall n s tau cancel ds,
+  result (run_call false n s tau cancel None ds) = NoResponse ->
+  transmissions (run_call false n s tau cancel None ds) = sched n s tau.
+Proof.
+  induction n as [|n IH]; intros s tau cancel ds; cbn [run_call]; [reflexivity|].
+  pose proof (try_bounded ds (s + tau) tau cancel None) as B.
+  destruct (try false (s + tau) tau cancel None ds) as [t|t rest|t o] eqn:E; cbn [transmissions result].
+  - discriminate.
+  - subst t. intros H. cbn [sched]. rewrite (IH _ _ _ _ H). reflexivity.
+  - intros ->. exfalso. clear B. revert E. generalize (s + tau) as deadline. generalize tau as tau'.
+    induction ds as [|[u a] ds IHd]; intros tau' deadline; cbn [try].
+    + destruct (stop_before cancel None deadline) as [[t' o']|] eqn:S; [|discriminate].
+      intros [= -> ->]. unfold stop_before in S. destruct cancel as [c|]; [|discriminate].
+      destruct (c <? deadline); discriminate.
+    + assert (NS : forall x t' o', stop_before cancel None x = Some (t', o') -> o' <> NoResponse).
+      { intros x t' o' S. unfold stop_before in S. destruct cancel as [c|]; [|discriminate].
+        destruct (c <? x); [injection S as <- <-; discriminate | discriminate]. }
+      destruct (u <? deadline).
+      * destruct (stop_before cancel None u) as [[t' o']|] eqn:S.
+        -- intros [= -> ->]. exact (NS _ _ _ S eq_refl).
+        -- destruct a; [discriminate | apply IHd].
+      * destruct (stop_before cancel None deadline) as [[t' o']|] eqn:S; [|discriminate].
+        intros [= -> ->]. exact (NS _ _ _ S eq_refl).
+Qed.
